@@ -91,7 +91,7 @@ static Outcome classify_death(const std::string &prop, int status, const std::st
   return o;
 }
 
-struct InExec { InExec() { g_in_exec = true; } ~InExec() { g_in_exec = false; } };
+struct InExec { explicit InExec(const Plan &p) { g_in_exec = true; const Rec *m = p.first("meta"); g_exec_prop = m ? m->s("prop", "") : ""; } ~InExec() { g_in_exec = false; } };
 // generation with the corpus guard: when producing a link killed the probe process, the run is about that link and nothing else
 static Plan gen_guarded(Engine *e, const GenCfg &cfg) {
   g_ref_crash_seen = false; Plan p = e->gen(cfg);
@@ -116,7 +116,7 @@ static Outcome exec_isolated(Engine *e, const Plan &plan, const std::string &pro
     close(pfd[0]); g_result_fd = pfd[1];
     int efd = open(errpath.c_str(), O_WRONLY | O_CREAT | O_TRUNC, 0666); if (efd >= 0) { dup2(efd, 2); close(efd); }
     signal(SIGPROF, on_prof); watchdog_arm(g_cpu_budget);
-    InExec inexec;
+    InExec inexec(plan);
     for (auto &pp : g_prelude) { Outcome po = e->exec(pp); (void)po; watchdog_arm(g_cpu_budget); }
     Outcome o = e->exec(plan); if (!g_prelude.empty() && o.violation) o.facts["needs_history"] = "1";
     std::string d = o.detail; for (auto &ch : d) if (ch == '\n') ch = '|';
@@ -275,7 +275,7 @@ int main(int argc, char **argv) {
     for (auto &r : all.recs) { if (r.type == "engine") engine = r.s("name"); else if (r.type == "expect") expect = r; else if (r.type == "planbreak") { g_prelude.push_back(p); p = Plan(); } else p.recs.push_back(r); }
     Engine *e = engine_by_name(engine);
     const Rec *meta = p.first("meta"); std::string prop = meta ? meta->s("prop") : "C00";
-    if (flag(argc, argv, "--inproc")) { signal(SIGPROF, on_prof); watchdog_arm(g_cpu_budget); e->prepare(p); InExec inexec; Outcome o = e->exec(p); printf("REPLAY %s\n", o.line().c_str()); if (!o.detail.empty()) printf("DETAIL %s\n", o.detail.c_str()); return o.violation ? 1 : 0; }
+    if (flag(argc, argv, "--inproc")) { signal(SIGPROF, on_prof); watchdog_arm(g_cpu_budget); e->prepare(p); InExec inexec(p); Outcome o = e->exec(p); printf("REPLAY %s\n", o.line().c_str()); if (!o.detail.empty()) printf("DETAIL %s\n", o.detail.c_str()); return o.violation ? 1 : 0; }
     Outcome o = exec_isolated(e, p, prop);
     printf("REPLAY %s\n", o.line().c_str());
     if (o.violation && !o.detail.empty()) { std::string d = o.detail.substr(0, 1500); printf("DETAIL %s\n", d.c_str()); }
@@ -329,7 +329,7 @@ int main(int argc, char **argv) {
     Plan p = gen_guarded(e, cfg);
     e->prepare(p);
     watchdog_arm(g_cpu_budget);
-    Outcome o; { InExec inexec; o = e->exec(p); }
+    Outcome o; { InExec inexec(p); o = e->exec(p); }
     watchdog_arm(0);
     runs++;
     struct Remember { const Plan &p; ~Remember() { if (!g_have_first) { g_first_plan = p; g_have_first = true; } g_prev_plan = p; g_have_prev = true; } } remember{p};
